@@ -997,6 +997,14 @@ func c16Scenarios(tier string) []*world.Scenario {
 			out = append(out, sc)
 		}
 	}
+	// round 10: a whole batch times out; a client that left before the deadline; hops of a redirect inside the timeout each
+	for _, n := range []int{2, 4} {
+		out = append(out, TimeoutBatch("C16", n, 2))
+	}
+	for _, rst := range []bool{false, true} {
+		out = append(out, GoneBeforeDeadline("C16", rst, 2))
+	}
+	out = append(out, SlowHops("C16", false, 2))
 	return out
 }
 
